@@ -481,3 +481,67 @@ Definition call_alone (c : lbq_cfg) (t : tid) (o : lbq_op) : option (lbq_cfg * o
   | None => None
   | Some c1 => run_alone 40 c1 t
   end.
+
+(* ---------- predicates the theorems are stated with (read off the program counters) ---------- *)
+(* ---------- the shape of a thread: operation and pc fit together ---------- *)
+Definition pc_ok (o : lbq_op) (p : lbq_pc) : bool :=
+  match p with
+  | RRLock | RDefer | RRet => negb (is_qop o)
+  | RBody => match o with OAsSlice => true | _ => false end
+  | _ => is_qop o
+  end.
+
+
+Definition wait_pc (p : lbq_pc) : bool :=
+  match p with PSig | SRes | SUnlock => true | _ => false end.
+Definition wait_region (p : lbq_pc) : bool :=
+  match p with
+  | PSig | SRes | SUnlock | SRet | PSelect | PParked | PCaseCtx | PRetErr1 | PCaseSig | PLock1 => true
+  | _ => false
+  end.
+
+
+Definition pending (p : lbq_pc) : bool := match p with BUnlock | BClose => true | _ => false end.
+
+Definition fetched (p : lbq_pc) : bool :=
+  match p with SUnlock | SRet | PSelect | PParked => true | _ => false end.
+Definition post_act (p : lbq_pc) : bool :=
+  match p with PBcast | BMake | BOld | BSet => true | _ => false end.
+
+(* some broadcaster on cond k is between its swap and its close(old) with old = g *)
+Definition closing (c : lbq_cfg) (k : lbq_cond) (g : nat) : Prop :=
+  exists b lb, lookup b (q_thr c) = Some lb /\ pending (l_pc lb) = true /\
+               bcond (l_op lb) = k /\ l_old lb = g.
+(* some call has changed the list and not yet swapped the channel of cond k *)
+Definition swapping (c : lbq_cfg) (k : lbq_cond) : Prop :=
+  exists b lb, lookup b (q_thr c) = Some lb /\ post_act (l_pc lb) = true /\ bcond (l_op lb) = k.
+
+Definition sig_live (c : lbq_cfg) (l : lbq_loc) : Prop :=
+  l_sig l = cur c (wcond (l_op l)) \/
+  mem (l_sig l) (closed c (wcond (l_op l))) = true \/
+  closing c (wcond (l_op l)) (l_sig l).
+
+
+Definition cur_phase (c : lbq_cfg) (t : tid) : lbq_phase :=
+  match lookup t (q_thr c) with None => PhIdle | Some l => phase_of l end.
+
+
+Definition blocked (c : lbq_cfg) (l : lbq_loc) : Prop :=
+  l_pc l = PParked \/
+  ((l_pc l = PLock \/ l_pc l = PLock1) /\ (q_wlock c <> None \/ q_readers c <> O)) \/
+  (l_pc l = RRLock /\ q_wlock c <> None).
+
+
+(* ---------- helpers for concrete schedules (examples, driver self-tests) ---------- *)
+Definition lbq_steps (t : tid) (n : nat) : list lbq_ev := repeat (QStep t) n.
+Definition lbq_run (m : Z) (evs : list lbq_ev) : option lbq_cfg := exec lbq_step (lbq_init m) evs.
+(* the observations of event e after the schedule evs *)
+Definition lbq_obs_of (m : Z) (evs : list lbq_ev) (e : lbq_ev) : option (list (tid * lbq_obs)) :=
+  match lbq_run m evs with
+  | Some c => match lbq_exec1 c e with Some (_, o) => Some o | None => None end
+  | None => None
+  end.
+(* (list, mutex owner, readers, (notEmpty generation, closed), (notFull generation, closed), [(tid, pc, fetched generation)]) *)
+Definition lbq_summary (c : lbq_cfg) :=
+  (q_items c, q_wlock c, q_readers c, (q_ne c, q_nec c), (q_nf c, q_nfc c),
+   map (fun p => (fst p, l_pc (snd p), l_sig (snd p))) (q_thr c)).
